@@ -27,6 +27,7 @@ def tup(x):
 	return x
 
 
+SOURCE = ['']  # the text being parsed (float literals are compared by spelling)
 _CMP = {ast.Eq: '==', ast.NotEq: '!=', ast.Lt: '<', ast.Gt: '>', ast.LtE: '<=', ast.GtE: '>=', ast.In: 'in', ast.NotIn: 'not in', ast.Is: 'is', ast.IsNot: 'is not'}
 _BIN = {ast.Add: '+', ast.Sub: '-', ast.Mult: '*', ast.Div: '/', ast.Mod: '%'}
 
@@ -35,12 +36,12 @@ def canon_py(n: ast.AST):
 	if isinstance(n, ast.Name):
 		return ('var', n.id)
 	if isinstance(n, ast.Constant):
-		if isinstance(n.value, bool) or n.value is None:
+		if isinstance(n.value, bool) or n.value is None or n.value is Ellipsis:
 			return ('const', str(n.value))
 		if isinstance(n.value, int):
 			return ('int', n.value)
 		if isinstance(n.value, float):
-			return ('float', repr(n.value))
+			return ('float', ast.get_source_segment(SOURCE[0], n) or repr(n.value))
 		return ('str', n.value)
 	if isinstance(n, ast.BoolOp):
 		op = 'and' if isinstance(n.op, ast.And) else 'or'
@@ -51,12 +52,14 @@ def canon_py(n: ast.AST):
 	if isinstance(n, ast.UnaryOp):
 		if isinstance(n.op, ast.Not):
 			return ('not', canon_py(n.operand))
-		return ('un', '-' if isinstance(n.op, ast.USub) else '+', canon_py(n.operand))
+		return ('un', {ast.USub: '-', ast.UAdd: '+', ast.Invert: '~'}[type(n.op)], canon_py(n.operand))
 	if isinstance(n, ast.Compare):
 		if len(n.ops) == 1:
 			return ('cmp', _CMP[type(n.ops[0])], canon_py(n.left), canon_py(n.comparators[0]))
 		return ('chain', tuple(_CMP[type(o)] for o in n.ops), tuple(canon_py(x) for x in [n.left, *n.comparators]))
 	if isinstance(n, ast.BinOp):
+		if type(n.op) not in _BIN:
+			return ('py:BinOp', type(n.op).__name__, canon_py(n.left), canon_py(n.right))
 		return ('bin', _BIN[type(n.op)], canon_py(n.left), canon_py(n.right))
 	if isinstance(n, ast.IfExp):
 		return ('tern', canon_py(n.test), canon_py(n.body), canon_py(n.orelse))
@@ -84,18 +87,23 @@ def canon_py(n: ast.AST):
 		return ('lambda', tuple(a.arg for a in n.args.args), canon_py(n.body))
 	if isinstance(n, ast.NamedExpr):
 		return ('walrus', n.target.id, canon_py(n.value))
-	raise Machinery(f'canon_py: unsupported {type(n).__name__}')
+	if isinstance(n, ast.Starred):
+		return ('py:Starred', canon_py(n.value))
+	# constructs outside py_gram: a canonical form of their own, so that a tree the own parser builds can never equal it
+	return ('py:' + type(n).__name__, tuple(canon_py(c) if isinstance(c, ast.expr) else type(c).__name__ for c in ast.iter_child_nodes(n)))
 
 
 def canon_py_stmt(n: ast.stmt):
 	if isinstance(n, ast.Expr):
 		return ('expr', canon_py(n.value))
 	if isinstance(n, ast.Assign):
+		if len(n.targets) != 1:
+			return ('py:MultiAssign', len(n.targets))
 		return ('assign', canon_py(n.targets[0]), canon_py(n.value))
 	if isinstance(n, ast.Return):
 		return ('return', canon_py(n.value) if n.value else None)
 	if isinstance(n, ast.Raise):
-		return ('raise', canon_py(n.exc))
+		return ('raise', canon_py(n.exc) if n.exc else None, 'from' if n.cause else None)
 	if isinstance(n, ast.Break):
 		return ('break',)
 	if isinstance(n, ast.Continue):
@@ -103,16 +111,22 @@ def canon_py_stmt(n: ast.stmt):
 	if isinstance(n, ast.If):
 		return ('if', canon_py(n.test), tuple(canon_py_stmt(s) for s in n.body), tuple(canon_py_stmt(s) for s in n.orelse))
 	if isinstance(n, ast.While):
-		return ('while', canon_py(n.test), tuple(canon_py_stmt(s) for s in n.body))
+		return ('while', canon_py(n.test), tuple(canon_py_stmt(s) for s in n.body), 'else' if n.orelse else None)
 	if isinstance(n, ast.For):
-		target = (n.target.id,) if isinstance(n.target, ast.Name) else tuple(e.id for e in n.target.elts)
-		return ('for', target, canon_py(n.iter), tuple(canon_py_stmt(s) for s in n.body))
+		target = (n.target.id,) if isinstance(n.target, ast.Name) else tuple(e.id if isinstance(e, ast.Name) else 'py:' + type(e).__name__ for e in n.target.elts) if isinstance(n.target, ast.Tuple) else ('py:' + type(n.target).__name__,)
+		return ('for', target, canon_py(n.iter), tuple(canon_py_stmt(s) for s in n.body), 'else' if n.orelse else None)
 	if isinstance(n, ast.FunctionDef):
 		a = n.args
+		if a.vararg or a.kwarg or a.kwonlyargs or a.posonlyargs or n.decorator_list:
+			return ('py:FunctionDef', ast.dump(a)[:200])
 		defaults = [None] * (len(a.args) - len(a.defaults)) + list(a.defaults)
 		params = tuple((p.arg, ast.unparse(p.annotation) if p.annotation else None, canon_py(d) if d else None) for p, d in zip(a.args, defaults))
 		return ('def', n.name, params, ast.unparse(n.returns) if n.returns else None, tuple(canon_py_stmt(s) for s in n.body))
-	raise Machinery(f'canon_py_stmt: unsupported {type(n).__name__}')
+	if isinstance(n, ast.AugAssign):
+		return ('py:AugAssign', type(n.op).__name__, canon_py(n.target), canon_py(n.value))
+	if isinstance(n, ast.Pass):
+		return ('py:Pass',)
+	return ('py:' + type(n).__name__, ast.dump(n)[:200])
 
 
 def fold(kind, elems, opname):
@@ -129,9 +143,9 @@ def canon_own(t):
 	if tag == 'name':
 		return ('var', body)
 	if tag == 'digit':
-		return ('int', int(body))
+		return ('int', int(body)) if body.isdigit() else ('digit?', body)
 	if tag == 'decimal':
-		return ('float', repr(float(body)))
+		return ('float', body)
 	if tag == 'string':
 		return ('str', ast.literal_eval(body))
 	if tag in ('boolean', 'none'):
@@ -195,11 +209,13 @@ def canon_own_stmt(t):
 	if tag == 'return':
 		return ('return', None if body[0][0] == '__empty__' else canon_own(body[0]))
 	if tag == 'raise':
-		return ('raise', canon_own(body[0]))
+		return ('raise', canon_own(body[0]), None)
 	if tag == 'break':
 		return ('break',)
 	if tag == 'continue':
 		return ('continue',)
+	if tag == 'pass':
+		return ('expr', ('const', 'Ellipsis'))
 	if tag == 'if':
 		then = body[0][1]
 		orelse: tuple = ()
@@ -211,10 +227,10 @@ def canon_own_stmt(t):
 			orelse = (('if', canon_own(e[1][0]), blk(e[1][1]), orelse),)
 		return ('if', canon_own(then[0]), blk(then[1]), orelse)
 	if tag == 'while':
-		return ('while', canon_own(body[0]), blk(body[1]))
+		return ('while', canon_own(body[0]), blk(body[1]), None)
 	if tag == 'for':
 		names = tuple(e[1] for e in body[:-2])
-		return ('for', names, canon_own(body[-2]), blk(body[-1]))
+		return ('for', names, canon_own(body[-2]), blk(body[-1]), None)
 	if tag == 'function':
 		name = body[0][1]
 		params = []
@@ -274,11 +290,10 @@ def _parse_all(args) -> dict:
 		ref = None
 		try:
 			tree = ast.parse(source)
+			SOURCE[0] = source
 			ref = tuple(canon_py_stmt(s) for s in tree.body)
-		except SyntaxError:
+		except (SyntaxError, ValueError, RecursionError):
 			ref = None
-		except Machinery:
-			ref = 'unsupported'
 		if kind != 'mutant':
 			want = (('expr', tup(case['canon'])),) if kind == 'expr' else case['want']
 			if ref != want:
@@ -316,7 +331,7 @@ def _parse_all(args) -> dict:
 			accepted += 1
 			if ref is None:
 				pass  # py_gram is more permissive than Python here (e.g. any expression left of :=); not a tree mismatch
-			elif ref != 'unsupported' and got != ref and ('other',) not in [g[:1] for g in got]:
+			elif got != ref:
 				failures.append({'clause': 'TreeEqualsCPython', 'detail': f'mutated {text!r}: own parser {got} vs CPython {ref}', 'text': text, 'kind': 'mutant'})
 		else:
 			rejected += 1
@@ -363,14 +378,22 @@ def run(ctx: Ctx) -> int:
 		cases += [json.loads(line) for line in res.lines('CASE ')]
 	stmts, _ = srcmodel.load_stmt_cases()
 	stmt_cases = []
+	outside = []  # Python that py_gram does not derive: to be rejected (an accepted one cannot have CPython's tree)
 	for c in stmts:
 		text = c['text'].replace('xs: list[int]', 'xs: list')
 		if '+=' in text or 'try:' in text:
-			continue  # augmented assignment and try are not part of py_gram
+			outside.append({'text': text})  # augmented assignment and try are not part of py_gram
+			continue
 		tree = ast.parse(text)
 		stmt_cases.append({'text': text, 'want': tuple(canon_py_stmt(s) for s in tree.body), 'top': c['canon']['k'], 'model': c['canon']})
 	if quick:
 		stmt_cases = stmt_cases[::2]
+	for nops in (1, 2):
+		exprs, _ = srcmodel.load_cases(nops)
+		outside += [{'text': f'x = {c["text"]}'} for c in exprs if any(op in c['text'] for op in ('|', '&', '^', '<<', '>>', '~', '+ +', '- -'))]
+	outside += [{'text': t} for t in ('a **= 2', 'a //= b', 'x = a ** b', 'x = a // b', 'x = 0x1F', 'x = 1e3', 'x = 1_000', 'x = 007', "x = r'a'", "x = f'{a}'", "x = b'a'", 'x = a if b else c if d else e', 'x = y = 1', 'x = 1,', 'x: int = 1', 'del x', 'assert a', 'import a', 'x = [i for i in a]', 'x = a[1:]', 'x = a @ b', 'x = not not a', 'global x', 'x = *a, b', 'x = {1, 2}', 'x = {a: 1}', 'x = a.1', 'x = 1.', 'x = .5', 'while a: break', 'if a: x = 1')]
+	if quick:
+		outside = outside[::4]
 	mres = tlc.run('ErrFlowMut', 'ErrFlowMut.cfg', workers=1, timeout=300)
 	descs = [json.loads(line) for line in mres.lines('MUT ')]
 	import random
@@ -383,7 +406,8 @@ def run(ctx: Ctx) -> int:
 			mutants.append({'text': mutate(src if src.endswith('\n') else src + '\n', d['op'], d['pos'])})
 		except Exception:
 			continue
-	ctx.log(f'TLC enumerated {len(cases)} expressions; {len(stmt_cases)} statement skeletons inside py_gram; {len(mutants)} mutated sentences')
+	mutants += outside
+	ctx.log(f'TLC enumerated {len(cases)} expressions; {len(stmt_cases)} statement skeletons inside py_gram; {len(mutants)} mutated or out-of-grammar sentences ({len(outside)} valid Python outside py_gram)')
 	nproc = 16
 	jobs = [(cases[i::nproc], 'expr') for i in range(nproc)] + [(stmt_cases[i::nproc], 'stmt') for i in range(nproc)] + [(mutants[i::nproc], 'mutant') for i in range(nproc)]
 	with ProcessPoolExecutor(max_workers=nproc) as ex:
